@@ -2,6 +2,8 @@
 
 from __future__ import annotations
 
+import re
+
 from nmverif.oracle import attrtree as A
 from nmverif.oracle import cst, editjudge as J, editmodel as M
 
@@ -23,6 +25,18 @@ def leaf_items(rd: cst.Reading, cut: tuple[int, int] | None):
         else:
             out.append((lf.type, lf.text, lf))
     return out
+
+
+_VALUE_COMMENT_RE = re.compile(rb"vc\d+")
+
+
+def drop_value_comments(items, op):
+    """Comments that the VALUE argument itself carries (marked `vc<N>`, unique per operation)
+    are part of what the operation writes, wherever the renderer puts them."""
+    marks = set(_VALUE_COMMENT_RE.findall((getattr(op, "value", "") or "").encode()))
+    if not marks:
+        return items
+    return [it for it in items if not (it[0] == "comment" and any(m in it[2].text for m in marks))]
 
 
 def attached_comments(rd: cst.Reading, start: int, end: int) -> set[int]:
@@ -106,6 +120,10 @@ def judge_tokens(dv_in: A.DocView, op, res, pred: M.Prediction, segs: list[str],
             if loc_in is not None:
                 b = loc_in[0][loc_in[1]]
                 cut_in = (b.start, b.end)
+                # an end-of-line comment that an earlier VALUE brought with it (mark `vc<N>`) is
+                # part of the value being replaced: it may stay or go
+                optional = {off for off in attached_comments(rin, b.start, b.end)
+                            if any(lf.start == off and _VALUE_COMMENT_RE.search(lf.text) for lf in rin.leaves)}
                 base_key["position"] = ("only" if len(loc_in[0]) == 1 else
                                         ("first" if loc_in[1] == 0 else
                                          ("last" if loc_in[1] == len(loc_in[0]) - 1 else "middle")))
@@ -114,7 +132,7 @@ def judge_tokens(dv_in: A.DocView, op, res, pred: M.Prediction, segs: list[str],
         bo = loc_out[0][loc_out[1]]
         cut_out = (bo.start, bo.end)
     a_items = leaf_items(rin, cut_in)
-    b_items = leaf_items(rout, cut_out)
+    b_items = drop_value_comments(leaf_items(rout, cut_out), op)
     bad = match_with_optional(a_items, b_items, optional)
     if bad is not None:
         i, j = bad
@@ -125,6 +143,12 @@ def judge_tokens(dv_in: A.DocView, op, res, pred: M.Prediction, segs: list[str],
             k["effect"] = "foreign-comment-lost"
             if cut_in is not None:
                 k["lost"] = "after-binding" if ia[2].start >= cut_in[1] else "before-binding"
+                # the lost comment stands directly below an end-of-line comment that an earlier
+                # VALUE brought to this binding (two trailing comments in the live object)
+                idx = next((n for n, lf in enumerate(rin.leaves) if lf.start == ia[2].start), None)
+                if idx and rin.leaves[idx - 1].type == "comment" and _VALUE_COMMENT_RE.search(rin.leaves[idx - 1].text) \
+                        and cut_in[1] <= rin.leaves[idx - 1].start:
+                    k["below_value_comment"] = "yes"
         elif ib is not None and ib[0] == "comment":
             k["effect"] = "foreign-comment-added-or-moved"
         else:
@@ -173,6 +197,8 @@ def judge_tokens_scoped(dv_in: A.DocView, op, res, depth: int, segs: list[str], 
             if loc_in is not None:
                 bi = loc_in[0][loc_in[1]]
                 cut_in = (bi.start, bi.end)
+                optional = {off for off in attached_comments(rin, bi.start, bi.end)
+                            if any(lf.start == off and _VALUE_COMMENT_RE.search(lf.text) for lf in rin.leaves)}
             base_key["position"] = "layer-binding"
         else:
             return keys
@@ -196,7 +222,7 @@ def judge_tokens_scoped(dv_in: A.DocView, op, res, depth: int, segs: list[str], 
             optional = attached_comments(rin, bi.start, bi.end)
             base_key["position"] = "layer-binding"
     a_items = leaf_items(rin, cut_in)
-    b_items = leaf_items(rout, cut_out)
+    b_items = drop_value_comments(leaf_items(rout, cut_out), op)
     # a let created around a bare call argument has to be parenthesized to stay valid Nix:
     # the pair of parentheses directly around the let chain belongs to the created head
     # (and may go again when the chain is removed)
@@ -255,14 +281,15 @@ def judge_bytes(dv_in: A.DocView, op, res, pred: M.Prediction, segs: list[str], 
     kind = None
     if op.kind == "set" and loc_in is not None and not pred.fresh:
         b = loc_in[0][loc_in[1]]
-        if b.value_node is None or "\n" in op.value:
+        if b.value_node is None or "\n" in op.value or _VALUE_COMMENT_RE.search(op.value.encode()):
             return keys
         vs, ve = b.value_node.start_byte, b.value_node.end_byte
         if index.row(vs) != index.row(ve - 1):
             return keys  # multi-line old value: token level only
         candidates.append((data[:vs] + op.value.encode() + data[ve:]).decode())
         kind = "replace"
-    elif op.kind == "set" and pred.fresh and len(segs) == 1 and "\n" not in op.value:
+    elif op.kind == "set" and pred.fresh and len(segs) == 1 and "\n" not in op.value \
+            and not _VALUE_COMMENT_RE.search(op.value.encode()):
         tnode = dv_in.target.node
         r0 = index.row(tnode.start_byte)
         r1 = index.row(tnode.end_byte - 1)
